@@ -508,6 +508,28 @@ class EscapeAnalysis:
                     if nosep or k not in (0, -1):
                         _put(out, Esc('IndexError', 'index', func.file,
                                       func.qualname, norm(n), n.lineno))
+                # exc.args[k]: an exception raised without arguments has
+                # args == ()
+                if isinstance(n, ast.Subscript) and \
+                        isinstance(n.ctx, ast.Load) and \
+                        isinstance(n.value, ast.Attribute) and \
+                        n.value.attr == 'args' and \
+                        isinstance(n.value.value, ast.Name) and \
+                        isinstance(n.slice, ast.Constant) and \
+                        isinstance(n.slice.value, int):
+                    hv = {h.name for t_ in ast.walk(func.node)
+                          if isinstance(t_, ast.Try) for h in t_.handlers
+                          if h.name}
+                    if n.value.value.id in hv:
+                        if facts is None:
+                            facts, self._cur_trys = self.facts(func).get(
+                                stmt, ((), ()))
+                        from .cfg import expr_guards as _eg
+                        known = list(facts) + list(_eg(stmt, n))
+                        if not any(pol and norm(t) == norm(n.value)
+                                   for t, pol in known):
+                            _put(out, Esc('IndexError', 'index', func.file,
+                                          func.qualname, norm(n), n.lineno))
         return out
 
     def _key_guarded(self, sub, key, facts, root):
